@@ -795,7 +795,13 @@ def corpus_cases():
             Case(F('max', seq([S('a'), S('B')])), kind='corpus', note='F08aa', coll='ci'),
             Case(F('min', seq([S('b'), S('B'), S('a')]), COLL('ci')), kind='corpus', note='F08aa'),
             Case(F('index-of', ab, S('a')), kind='corpus', note='seeded: default collation in index-of/2', coll='ci')]
-    return [Case(e, kind='corpus', note=n) for e, n in exprs] + coll
+    big = [Case(F('avg', seq([I(10 ** 30), I(1)])), kind='corpus', note='avg beyond 28 digits (C03 eb8f3fb)'),
+           Case(F('avg', seq([I(10 ** 30 + 1), I(1)])), kind='corpus', note='exact integer mean beyond 28 digits'),
+           Case(F('avg', seq([I(10 ** 40), I(10 ** 40), I(10 ** 40 + 3)])), kind='corpus', note='exact integer mean'),
+           Case(F('avg', seq([I(-(10 ** 30) - 1), I(-1), I(1)])), kind='corpus', note='negative total, remainder'),
+           Case(F('avg', seq([I(10 ** 30 + 1), I(2)])), kind='corpus', note='rounds to an integral decimal at 28 digits'),
+           Case(F('avg', seq([I(10 ** 30), Q('0.5')])), kind='corpus', note='integer and decimal beyond 28 digits')]
+    return [Case(e, kind='corpus', note=n) for e, n in exprs] + coll + big
 
 
 def probe_cases(thorough: bool, rng=None):
